@@ -747,7 +747,7 @@ func trunc(s string, n int) string {
 
 // leakCheck: after a batch (all transports closed) no transport goroutine may remain.
 func leakCheck(batch []fcase) {
-	left := leak.WaitNone([]string{"mosdns/v5/pkg/upstream/transport.", "mosdns/v5/pkg/upstream."}, nil, wCtx)
+	left := leak.WaitNone([]string{"mosdns/v5/pkg/upstream/transport.", "mosdns/v5/pkg/upstream.", "mosdns/v5/pkg/upstream/doh."}, nil, wCtx)
 	rep.Count("leak_checks", 1)
 	if len(left) == 0 {
 		return
@@ -761,7 +761,7 @@ func leakCheck(batch []fcase) {
 		seen[fp] = true
 		top := "?"
 		for _, l := range strings.Split(g.Text, "\n") {
-			if strings.Contains(l, "mosdns/v5/pkg/upstream/transport.") || strings.Contains(l, "mosdns/v5/pkg/upstream.") {
+			if strings.Contains(l, "mosdns/v5/pkg/upstream/transport.") || strings.Contains(l, "mosdns/v5/pkg/upstream.") || strings.Contains(l, "mosdns/v5/pkg/upstream/doh.") {
 				top = strings.TrimSpace(l)
 				if i := strings.LastIndexByte(top, '('); i > 0 {
 					top = top[:i] // drop the argument list
@@ -927,6 +927,16 @@ func main() {
 	go func() {
 		defer slowWg.Done()
 		realSilentPeers()
+	}()
+	slowWg.Add(1)
+	go func() {
+		defer slowWg.Done()
+		realCancelledCalls()
+	}()
+	slowWg.Add(1)
+	go func() {
+		defer slowWg.Done()
+		runWindows(rep.Pick(2, 8))()
 	}()
 	rep.Count("slow_cases(own timeouts expire naturally)", int64(len(slow)))
 	rep.Count("fast_cases", int64(len(fast)))
